@@ -129,7 +129,7 @@ CHECKS = {
     "C04": dict(thorough_extra=["mut", "session"], corpora=["fields", "getters", "fb", "rsdp"],
                 rule="fields: every kind at its conformant size x 2 marker fills x 2 positions, every accessor; "
                      "getters: all sequences of <= MaxTags tags over 6 kinds (duplicates use different fills); fb: all 256 type bytes"),
-    "C05": dict(thorough_extra=["mut"], corpora=["dst", "fb", "hdst"],
+    "C05": dict(thorough_extra=["mut"], corpora=["dst", "fb", "hdst", "adv"],
                 rule="every variable-length kind x every declared size 0..base+3*elem+DstExtra and three sizes beyond the region, "
                      "marker bytes in padding and in the neighbouring tag"),
     "C02": dict(corpora=["load", "big"],
